@@ -97,7 +97,7 @@ Proof.
   - intros w Hw. destruct (Vwt w Hw) as (H1 & H2 & H3 & H4 & H5 & H6).
     split; [lia|]. split; [exact H2|]. split; [exact H3|]. split; [|split; assumption].
     apply Forall_app. split; [exact H4|]. constructor; [cbn; lia|constructor].
-  - right. replace (S (next s) - 1) with (next s) by lia. unfold nums. cbn. rewrite map_app, !in_app_iff. cbn. auto.
+  - right. unfold nums. cbn. rewrite map_app, !in_app_iff. cbn. right. right. right. left. lia.
   - intros h Hh. destruct (Vhlt h Hh) as (H1 & H2 & H3). split; [exact H1|]. split; [|lia].
     apply Forall_app. split; [exact H2|]. constructor; [cbn; lia|constructor].
 Qed.
@@ -121,35 +121,27 @@ Qed.
 
 Lemma step_kill s s' : PInv s -> pstep s PKill = Some s' -> PInv s'.
 Proof.
-  intros HI H. pinv_open HI. cbn in H. destruct (wk s) as [|e|e|e] eqn:Hwk; try discriminate.
+  intros HI H. pinv_open HI. cbn in H. unfold nums, wk_req in *.
+  destruct (wk s) as [|e|e|e] eqn:Hwk; try discriminate.
   destruct (wt s) as [w|] eqn:Hwt; [|discriminate]. destruct (w_stat w) eqn:Hst; try discriminate.
   destruct (w_done w) eqn:Hd; [discriminate|]. inversion H; subst s'; clear H.
   destruct (Vwt w eq_refl) as (H1 & H2 & H3 & H4 & H5 & H6).
-  constructor; cbn; auto; try discriminate.
-  - intros e0 He0. apply Vwk. unfold wk_req in *. rewrite Hwk. exact He0.
+  constructor; unfold nums, wk_req; cbn; auto; try discriminate.
   - intros w0 Hw0. inversion Hw0; subst w0; clear Hw0. cbn.
-    split; [exact H1|]. split; [intros _ Hx; congruence|]. split.
-    + intros e0 He0. apply H3. unfold wk_req in *. rewrite Hwk. exact He0.
-    + split; [exact H4|]. split; discriminate.
-  - unfold nums, wk_req in *. cbn. rewrite Hwk in *. exact Vnew.
-  - intros h Hh. destruct (Vhlt h Hh) as (Ha & Hb & Hc). split; [|split; assumption].
-    intros e0 He0. apply Ha. unfold wk_req in *. rewrite Hwk. exact He0.
-  - intros n Hn. destruct (Vtxt n Hn) as [Ha _]. split; [exact Ha|]. rewrite Hwk. discriminate.
-  - rewrite Hwk. exact I.
+    split; [exact H1|]. split; [intros _ Hx; congruence|]. split; [exact H3|].
+    split; [exact H4|]. split; discriminate.
+  - intros n Hn. destruct (Vtxt n Hn) as [Ha _]. split; [exact Ha|]. discriminate.
 Qed.
 
 Lemma step_join s s' : PInv s -> pstep s PJoin = Some s' -> PInv s'.
 Proof.
-  intros HI H. pinv_open HI. cbn in H. destruct (wk s) as [|e|e|e] eqn:Hwk; try discriminate.
+  intros HI H. pinv_open HI. cbn in H. unfold nums, wk_req in *.
+  destruct (wk s) as [|e|e|e] eqn:Hwk; try discriminate.
   assert (Hs' : s' = {| chan := chan s; wk := WJoined e; wt := None; content := content s; shown := shown s; handled := handled s; next := next s |}).
   { destruct (wt s) as [w|]; [destruct (w_done w); [|discriminate]|]; inversion H; reflexivity. }
   subst s'. clear H.
-  constructor; cbn; auto; try discriminate.
-  - intros e0 He0. apply Vwk. unfold wk_req in *. rewrite Hwk. exact He0.
-  - unfold nums, wk_req in *. cbn. rewrite Hwk in *. exact Vnew.
-  - intros h Hh. destruct (Vhlt h Hh) as (Ha & Hb & Hc). split; [|split; assumption].
-    intros e0 He0. apply Ha. unfold wk_req in *. rewrite Hwk. exact He0.
-  - intros n Hn. destruct (Vtxt n Hn) as [Ha _]. split; [exact Ha|]. discriminate.
+  constructor; unfold nums, wk_req; cbn; auto; try discriminate.
+  intros n Hn. destruct (Vtxt n Hn) as [Ha _]. split; [exact Ha|]. discriminate.
 Qed.
 
 Lemma last_in_cons {A} (l : list A) d : In (last l d) (d :: l).
@@ -161,18 +153,19 @@ Qed.
 
 Lemma step_drain s s' : PInv s -> pstep s PDrain = Some s' -> PInv s'.
 Proof.
-  intros HI H. pinv_open HI. cbn in H. destruct (wk s) as [|e|e|e] eqn:Hwk; try discriminate.
-  inversion H; subst s'; clear H. rewrite Hwk in Vnowt.
-  destruct (Vwk e ltac:(unfold wk_req; rewrite Hwk; reflexivity)) as (W1 & W2 & W3).
+  intros HI H. pinv_open HI. cbn in H. unfold nums, wk_req in *.
+  destruct (wk s) as [|e|e|e] eqn:Hwk; try discriminate.
+  inversion H; subst s'; clear H.
+  destruct (Vwk e eq_refl) as (W1 & W2 & W3).
   assert (Hlast : fst (last (chan s) e) < next s /\ below (fst (last (chan s) e)) (shown s)).
   { destruct (last_in_cons (chan s) e) as [E|E]; [rewrite <- E; auto|].
     rewrite Forall_forall in Vchn. apply Vchn. exact E. }
-  constructor; cbn; auto; try discriminate; try (constructor; fail).
-  - intros e0 He0. unfold wk_req in He0. cbn in He0. inversion He0; subst e0.
+  constructor; unfold nums, wk_req; cbn; auto; try discriminate; try (constructor; fail).
+  - intros e0 He0. inversion He0; subst e0.
     destruct Hlast as [L1 L2]. split; [exact L1|]. split; [exact L2|constructor].
   - intros w Hw. congruence.
-  - destruct Vnew as [V|V]; [left; exact V|right]. unfold nums, wk_req in *. rewrite Hwk in V. cbn [olist map app] in *.
-    rewrite app_nil_r. apply in_app_iff in V. apply in_app_iff. destruct V as [V|V]; [left; exact V|right].
+  - destruct Vnew as [V|V]; [left; exact V|right]. cbn [olist map app] in *.
+    apply in_app_iff in V. apply in_app_iff. destruct V as [V|V]; [left; exact V|right].
     cbn. left. destruct V as [V|V].
     + (* e is the newest: the channel is empty *)
       destruct (chan s) as [|c r]; [exact V|]. exfalso. inversion W3 as [|? ? Hc _]; subst.
@@ -191,8 +184,192 @@ Proof.
       { eapply Forall_impl; [|exact Vchn]. cbn. intros a [Ha _]. lia. }
       destruct (Hmax (chan s) Vch Hin Hf e) as [E|E]; [rewrite E; exact Hx|rewrite E; exact Hx].
   - intros h Hh. destruct (Vhlt h Hh) as (Ha & Hb & Hc). split; [|split; [constructor|exact Hc]].
-    intros e0 He0. unfold wk_req in He0. cbn in He0. inversion He0; subst e0.
-    destruct (last_in_cons (chan s) e) as [E|E]; [rewrite <- E; apply Ha; unfold wk_req; rewrite Hwk; reflexivity|].
+    intros e0 He0. inversion He0; subst e0.
+    destruct (last_in_cons (chan s) e) as [E|E]; [rewrite <- E; apply Ha; reflexivity|].
     rewrite Forall_forall in Hb. apply Hb. exact E.
   - intros n Hn. destruct (Vtxt n Hn) as [Ha _]. split; [exact Ha|]. discriminate.
 Qed.
+
+Lemma last_some_snoc (l : list nat) x : last (map Some (l ++ [x])) None = Some x.
+Proof. rewrite map_app. cbn. apply last_snoc. Qed.
+
+Ltac inv_some :=
+  repeat match goal with
+         | |- forall _ : _, Some _ = Some _ -> _ => let H := fresh "E" in intros ? H; inversion H; subst; clear H; cbn [w_no w_stat w_done fst snd]
+         | |- forall _ : _, None = Some _ -> _ => intros; discriminate
+         | |- WIdle = WIdle -> _ => intros _
+         end.
+
+Lemma step_handle s s' : PInv s -> pstep s PHandle = Some s' -> PInv s'.
+Proof.
+  intros HI H. pinv_open HI. cbn in H. unfold nums, wk_req in *.
+  destruct (wk s) as [|e|e|e] eqn:Hwk; try discriminate.
+  destruct (Vwk e eq_refl) as (W1 & W2 & W3).
+  assert (Hnew : next s = 0 \/ In (next s - 1) (fst e :: map fst (chan s))).
+  { destruct Vnew as [V|V]; [left; exact V|right]. apply in_app_iff in V. destruct V as [V|V]; [|exact V].
+    exfalso. destruct (handled s) as [h|] eqn:Hh; [|destruct V]. cbn in V. destruct V as [V|[]].
+    destruct (Vhlt h eq_refl) as (Ha & _ & _). specialize (Ha e eq_refl). lia. }
+  destruct e as [n k]. cbn [fst snd] in *. destruct k; inversion H; subst s'; clear H.
+  - (* command: spawn *)
+    constructor; unfold nums, wk_req; cbn; auto; try discriminate; inv_some.
+    + repeat split; auto; try discriminate; intros; discriminate.
+    + repeat split; auto; intros; discriminate.
+    + split; [reflexivity|discriminate].
+    + eexists. split; reflexivity.
+  - (* text: shown at once *)
+    constructor; unfold nums, wk_req; cbn; auto; try discriminate; inv_some.
+    + apply sorted_snoc; assumption.
+    + apply below_app; assumption.
+    + rewrite Forall_forall in *. intros x Hx. destruct (Vchn x Hx) as [H1 H2]. split; [exact H1|].
+      apply below_app; [exact H2|]. apply (W3 x Hx).
+    + intros w Hw. rewrite Vnowt in Hw. discriminate.
+    + symmetry. apply last_some_snoc.
+    + repeat split; auto; intros; discriminate.
+    + intros w Hw. rewrite Vnowt in Hw. discriminate.
+    + split; [apply in_app_iff; right; left; reflexivity|]. intros _. exact Vnowt.
+  - (* no-op *)
+    constructor; unfold nums, wk_req; cbn; auto; try discriminate; inv_some.
+    + intros w Hw. rewrite Vnowt in Hw. discriminate.
+    + repeat split; auto; intros; discriminate.
+    + intros w Hw. rewrite Vnowt in Hw. discriminate.
+Qed.
+
+Lemma step_childexit s s' : PInv s -> pstep s PChildExit = Some s' -> PInv s'.
+Proof.
+  intros HI H. pinv_open HI. cbn in H. unfold nums, wk_req in *.
+  destruct (wt s) as [w|] eqn:Hwt; [|discriminate]. destruct (w_stat w) eqn:Hst; try discriminate.
+  destruct (w_done w) eqn:Hd; [discriminate|]. inversion H; subst s'; clear H.
+  destruct (Vwt w eq_refl) as (H1 & H2 & H3 & H4 & H5 & H6).
+  constructor; unfold nums, wk_req; cbn; auto; try discriminate.
+  - intros w0 Hw0. inversion Hw0; subst w0; clear Hw0. cbn.
+    split; [exact H1|]. split; [intros _ _; apply H2; [exact Hd|congruence]|]. split; [exact H3|].
+    split; [exact H4|]. split; discriminate.
+  - intros Hi w0 Hw0. inversion Hw0; subst w0; clear Hw0. cbn. destruct (Vidle Hi w eq_refl) as [Ha _]. split; [exact Ha|discriminate].
+  - intros Hi n Hn. destruct (Vcmd Hi n Hn) as (w0 & Hw0 & Hn0). inversion Hw0; subst w0. eexists. split; [reflexivity|exact Hn0].
+  - intros n Hn. destruct (Vtxt n Hn) as [Ha Hb]. split; [exact Ha|]. intros Hi. specialize (Hb Hi). discriminate.
+  - destruct (wk s); auto; discriminate.
+Qed.
+
+Lemma step_waiter s s' : PInv s -> pstep s PWaiter = Some s' -> PInv s'.
+Proof.
+  intros HI H. pinv_open HI. cbn in H. unfold nums, wk_req in *.
+  destruct (wt s) as [w|] eqn:Hwt; [|discriminate]. destruct (w_done w) eqn:Hd; [discriminate|].
+  destruct (Vwt w eq_refl) as (H1 & H2 & H3 & H4 & H5 & H6).
+  assert (Hnj : match wk s with WJoined _ | WHandle _ => False | _ => True end).
+  { destruct (wk s); auto; discriminate. }
+  destruct (w_stat w) eqn:Hst; try discriminate; inversion H; subst s'; clear H.
+  - (* the child exited by itself: its output is shown *)
+    assert (Hb : below (w_no w) (shown s)) by (apply H2; [exact Hd|discriminate]).
+    constructor; unfold nums, wk_req; cbn; auto; try discriminate.
+    + apply sorted_snoc; assumption.
+    + apply below_app; assumption.
+    + rewrite Forall_forall in *. intros x Hx. destruct (Vchn x Hx) as [Ha Hc]. split; [exact Ha|].
+      apply below_app; [exact Hc|]. apply (H4 x Hx).
+    + intros e He. destruct (Vwk e He) as (Ha & Hc & Hd'). split; [exact Ha|]. split; [|exact Hd'].
+      apply below_app; [exact Hc|]. apply H3. exact He.
+    + intros w0 Hw0. inversion Hw0; subst w0; clear Hw0. cbn. repeat split; auto; try discriminate.
+    + symmetry. apply last_some_snoc.
+    + intros Hi w0 Hw0. inversion Hw0; subst w0; clear Hw0. cbn. destruct (Vidle Hi w eq_refl) as [Ha _]. split; [exact Ha|discriminate].
+    + intros Hi n Hn. destruct (Vcmd Hi n Hn) as (w0 & Hw0 & Hn0). inversion Hw0; subst w0. eexists. split; [reflexivity|exact Hn0].
+    + intros n Hn. destruct (Vtxt n Hn) as [Ha Hc]. split; [apply in_app_iff; left; exact Ha|]. intros Hi. specialize (Hc Hi). discriminate.
+    + destruct (wk s); auto; contradiction.
+  - (* killed: nothing is shown *)
+    constructor; unfold nums, wk_req; cbn; auto; try discriminate.
+    + intros w0 Hw0. inversion Hw0; subst w0; clear Hw0. cbn. repeat split; auto; try discriminate.
+    + intros Hi w0 Hw0. exfalso. destruct (Vidle Hi w eq_refl) as [_ Hk]. congruence.
+    + intros Hi n Hn. destruct (Vcmd Hi n Hn) as (w0 & Hw0 & Hn0). inversion Hw0; subst w0. eexists. split; [reflexivity|exact Hn0].
+    + intros n Hn. destruct (Vtxt n Hn) as [Ha Hc]. split; [exact Ha|]. intros Hi. specialize (Hc Hi). discriminate.
+    + destruct (wk s); auto; contradiction.
+Qed.
+
+Theorem pstep_inv s l s' : PInv s -> pstep s l = Some s' -> PInv s'.
+Proof.
+  intros HI H. destruct l.
+  - eapply step_send; eauto.
+  - eapply step_recv; eauto.
+  - eapply step_kill; eauto.
+  - eapply step_join; eauto.
+  - eapply step_drain; eauto.
+  - eapply step_handle; eauto.
+  - eapply step_childexit; eauto.
+  - eapply step_waiter; eauto.
+Qed.
+
+Theorem prun_inv ls : forall s s', PInv s -> prun s ls = Some s' -> PInv s'.
+Proof.
+  induction ls as [|l ls IH]; cbn; intros s s' HI H.
+  - inversion H; subst; exact HI.
+  - destruct (pstep s l) as [s1|] eqn:E; [|discriminate]. eapply IH; [eapply pstep_inv; eauto|exact H].
+Qed.
+
+(** * consequences *)
+Theorem shown_monotone ls s : prun pinit ls = Some s -> StronglySorted lt (shown s).
+Proof. intros H. apply (v_sh s). eapply prun_inv; [apply pinit_inv|exact H]. Qed.
+
+Lemma sorted_last_is_max (l : list nat) n :
+  StronglySorted lt l -> In n l -> below (S n) l -> last (map Some l) None = Some n.
+Proof.
+  induction l as [|x l IH]; intros Hs Hi Hb; [destruct Hi|].
+  inversion Hs as [|? ? Hs' Hx]; subst. inversion Hb as [|? ? Hxn Hb']; subst.
+  destruct l as [|y l].
+  - destruct Hi as [->|[]]. reflexivity.
+  - change (last (map Some (x :: y :: l)) None) with (last (map Some (y :: l)) None).
+    destruct Hi as [->|Hi]; [|apply IH; assumption].
+    exfalso. inversion Hx as [|? ? Hy _]; subst. inversion Hb' as [|? ? Hyn _]; subst. lia.
+Qed.
+
+Theorem settled_latest ls s :
+  prun pinit ls = Some s -> psettled s -> 0 < next s ->
+  exists k, handled s = Some (next s - 1, k) /\ (k <> KNoop -> content s = Some (next s - 1)).
+Proof.
+  intros Hr (Hc & Hw & Hd) Hn.
+  pose proof (prun_inv _ _ _ pinit_inv Hr) as HI. pinv_open HI.
+  destruct Vnew as [V|V]; [lia|]. unfold nums, wk_req in V. rewrite Hc, Hw in V. cbn in V. rewrite app_nil_r in V.
+  destruct (handled s) as [[n k]|] eqn:Hh; [|destruct V]. cbn in V. destruct V as [V|[]]. subst n.
+  exists k. split; [reflexivity|]. intros Hk. destruct k; [| |congruence].
+  - destruct (Vcmd Hw _ eq_refl) as (w & Hwt & Hno). rewrite Hwt in Hd.
+    destruct (Vwt w Hwt) as (_ & _ & _ & _ & H5 & H6). destruct (Vidle Hw w Hwt) as [_ Hk'].
+    rewrite <- Hno. apply H5; [exact Hd|]. specialize (H6 Hd). destruct (w_stat w); congruence.
+  - destruct (Vtxt _ eq_refl) as [Hin _]. rewrite Vct. apply sorted_last_is_max; auto.
+    replace (S (next s - 1)) with (next s) by lia. exact Vshn.
+Qed.
+
+Theorem killed_discarded s s' w :
+  pstep s PWaiter = Some s' -> wt s = Some w -> w_stat w = Killed -> content s' = content s /\ shown s' = shown s.
+Proof.
+  intros H Hw Hk. cbn in H. rewrite Hw in H. destruct (w_done w); [discriminate|]. rewrite Hk in H.
+  inversion H; subst. cbn. auto.
+Qed.
+
+(** a kill is only ever aimed at the waiter of an older request than the one being served *)
+Theorem kill_targets_older ls s e w :
+  prun pinit ls = Some s -> wk s = WGot e -> wt s = Some w -> w_no w < fst e.
+Proof.
+  intros Hr Hk Hw. pose proof (prun_inv _ _ _ pinit_inv Hr) as HI.
+  destruct (v_wt s HI w Hw) as (_ & _ & H3 & _). apply H3. unfold wk_req. rewrite Hk. reflexivity.
+Qed.
+
+Lemma text_eqb_refl t : text_eqb t t = true.
+Proof. apply text_eqb_spec. reflexivity. Qed.
+
+Theorem no_rerun f : on_item_change f (f_item f) (f_query f) (f_cmdq f) (f_nsel f) false = (false, f).
+Proof.
+  unfold on_item_change.
+  assert (H1 : opt_changed N.eqb (f_item f) (f_item f) = false) by (destruct (f_item f); cbn; [rewrite N.eqb_refl|]; reflexivity).
+  assert (H2 : opt_changed text_eqb (f_query f) (f_query f) = false) by (destruct (f_query f); cbn; [rewrite text_eqb_refl|]; reflexivity).
+  assert (H3 : opt_changed text_eqb (f_cmdq f) (f_cmdq f) = false) by (destruct (f_cmdq f); cbn; [rewrite text_eqb_refl|]; reflexivity).
+  rewrite H1, H2, H3, Nat.eqb_refl. reflexivity.
+Qed.
+
+Theorem rerun_when_changed f item q cq nsel force :
+  fst (on_item_change f item q cq nsel force) = true <->
+  force = true \/ opt_changed N.eqb (f_item f) item = true \/ opt_changed text_eqb (f_query f) q = true \/
+  opt_changed text_eqb (f_cmdq f) cq = true \/ f_nsel f <> nsel.
+Proof.
+  unfold on_item_change.
+  destruct force, (opt_changed N.eqb (f_item f) item), (opt_changed text_eqb (f_query f) q),
+    (opt_changed text_eqb (f_cmdq f) cq), (Nat.eqb_spec (f_nsel f) nsel); cbn; intuition congruence.
+Qed.
+
+Theorem scroll_in_range off diff len : 1 <= scroll_down off diff len <= Nat.max (len - 1) 1.
+Proof. unfold scroll_down. lia. Qed.
